@@ -443,7 +443,10 @@ func c18All(env *core.Env, c *c18Case) core.Verdict {
 func c18Stdin(env *core.Env, c *c18Case) core.Verdict {
 	root := emptyRoot(env)
 	defer rmCase(root)
-	tree := sut.Tree{"regex-assembly/toolchain.yaml": crsToolchainYAML, "regex-assembly/include/inc1.ra": "included1\n"}
+	tree := sut.Tree{"regex-assembly/toolchain.yaml": crsToolchainYAML, "regex-assembly/include/inc1.ra": "included1\nincluded2\n", "regex-assembly/exclude/exc1.ra": "included2\n",
+		// a working directory outside the root that holds files named like the include and exclude files
+		"../elsewhere/inc1.ra": "fromtheworkingdirectory\n", "../elsewhere/inc1": "fromtheworkingdirectory\n", "../elsewhere/exc1.ra": "included1\n", "../elsewhere/regex-assembly/include/inc1.ra": "fromanothercheckout\n"}
+	elsewhere := filepath.Join(filepath.Dir(root), "elsewhere")
 	names := []string{"932100", "932100.ra", "932100-chain1", "932100-chain255.ra"}
 	v := core.Verdict{Status: core.Held, Nontrivial: true, Counts: map[string]int{}}
 	for i, content := range c.Args {
@@ -462,6 +465,17 @@ func c18Stdin(env *core.Env, c *c18Case) core.Verdict {
 			return core.Viol("generate-file-vs-stdin", "generate %s and generate - on the same %d bytes differ\ncontent=%s\nfile : %s\nstdin: %s", arg, len(content), core.Q(content), describe(g1), describe(g2))
 		}
 		v.Counts["contents_compared"]++
+		// the same from a working directory outside the root (with -d): what lies there is not looked at
+		if strings.Contains(content, "include") {
+			g3 := cliAt(env, elsewhere, []byte(content), "-d", root, "regex", "generate", "-")
+			g4 := cliAt(env, elsewhere, nil, "--directory", root, "regex", "generate", arg)
+			for _, g := range []*sut.Result{g3, g4} {
+				if (g.Exit == 0) != (g2.Exit == 0) || string(g.Stdout) != string(g2.Stdout) {
+					return core.Viol("generate-depends-on-working-directory", "generate on the same %d bytes with -d %s gives another result when started in a directory that holds files named like the include files\ncontent=%s\nfrom the root: %s\nfrom elsewhere: %s", len(content), root, core.Q(content), describe(g2), describe(g))
+				}
+			}
+			v.Counts["foreign_working_directory_runs"] += 2
+		}
 	}
 	return v
 }
@@ -534,7 +548,7 @@ func c18Cases(env *core.Env, rng *rand.Rand) []core.Case {
 	// file argument versus stdin on awkward contents
 	bom := "\xef\xbb\xbf"
 	contents := []string{"foo\nbar\n", bom + "foo\nbar\n", bom + "##!+ i\nfoo\nbar\n", bom + "##! comment\nfoo\n", "foo\r\nbar\r\n", "##!+ i\r\nfoo\r\n", "foo\nbar", "", "\n", "\n\nfoo\n\n", "  foo  \n\tbar\t\n",
-		"foo" + bom + "\nbar\n", "\xff\xfefoo\n", "foo\x00bar\n", "##!> include inc1\nfoo\n", "##!> cmdline unix\n  ls\n##!<", "foo\n\x1a", "\ufeff", bom, "foo \nbar  ", "##!^ \\b\nfoo\n##!$ x", "a\n" + strings.Repeat("b", 5000) + "\nc"}
+		"foo" + bom + "\nbar\n", "\xff\xfefoo\n", "foo\x00bar\n", "##!> include inc1\nfoo\n", "##!> include inc1.ra\n", "##!> include-except inc1 exc1\nfoo\n", "##!> cmdline unix\n  ##!> include inc1\n##!<\n", "##!> include-except inc1.ra exc1.ra -- 1 ONE\n", "##!> cmdline unix\n  ls\n##!<", "foo\n\x1a", "\ufeff", bom, "foo \nbar  ", "##!^ \\b\nfoo\n##!$ x", "a\n" + strings.Repeat("b", 5000) + "\nc"}
 	for i := 0; i < len(contents); i += 6 {
 		cs = append(cs, &c18Case{Kind: "stdin", Args: contents[i:min(i+6, len(contents))]})
 	}
